@@ -43,6 +43,73 @@ def write_replay(prop, name, payload):
     return p
 
 
+def multi_feeder_groups(case):
+    """fn ids that feed a value group which has two or more feeders registered in the history"""
+    registered = {o["fn"] for o in case["ops"] if o["op"] == "provide"}
+    feeds = collections.defaultdict(set)
+
+    def walk(f, rs):
+        for r in rs:
+            if r["k"] == "obj":
+                walk(f, r.get("fields") or [])
+            elif r["k"] == "group":
+                feeds[r["group"]].add(f)
+    for f in case["fns"]:
+        if f["id"] in registered:
+            walk(f["id"], f.get("results") or [])
+    out = set()
+    for g, fs in feeds.items():
+        if len(fs) >= 2:
+            out |= fs
+    return out
+
+
+def pred_group_feeder_order(case, trace, twin, oi, code):
+    """D19b: the feeders of a value group are built in registration order and the first failure stops
+    the group, so with two or more feeders of which one cannot be built, (a) WHICH failure the group
+    reports (a missing dependency, which an optional parameter above it absorbs, or a harder error)
+    and (b) which feeders had already run depend on the registration order.
+    True exactly when the difference between the two runs at operation oi is of that form."""
+    tc, tt, perm = twin
+    feeders = multi_feeder_groups(case)
+    if not feeders or case["ops"][oi]["op"] != "invoke" or oi >= len(perm) or perm[oi] >= len(tt["ops"]):
+        return False
+    a, b = trace["ops"][oi], tt["ops"][perm[oi]]
+    va, vb = a["verdict"], b["verdict"]
+    if code == 1601:
+        # one run succeeds (an optional parameter absorbed a group that could not be built for a missing
+        # dependency), the other fails with an error that passes through the building of a value group
+        if (va.get("v") == "ok") == (vb.get("v") == "ok"):
+            return False
+        bad = vb if va.get("v") == "ok" else va
+        return bad.get("v") == "err" and "paramgroup" in (bad.get("chain") or [])
+    if code == 1602:
+        if (va.get("v") == "ok") != (vb.get("v") == "ok"):
+            # the executions of an Invoke that failed in the other order: a consequence of (a)
+            return pred_group_feeder_order(case, trace, twin, oi, 1601)
+        if va.get("v") != "ok" or vb.get("v") != "ok":
+            return False
+        key = lambda ev: (ev["f"], ev["e"])
+        proj = lambda ev: (ev["f"], ev["e"], ev.get("role"), json.dumps(ev.get("args"), sort_keys=True), ev.get("out"))
+        allb = {key(ev): proj(ev) for ot in tt["ops"] for ev in ot["events"] if ev.get("ev") == "exec"}
+        extra = False
+        for ev in a["events"]:
+            if ev.get("ev") != "exec":
+                continue
+            if key(ev) in allb:
+                if allb[key(ev)] != proj(ev):
+                    return False        # a common execution received different arguments: not this finding
+            elif ev.get("role") == "ctor" and ev["f"] in feeders:
+                extra = True            # a group feeder that ran in one order only
+            else:
+                return False
+        return extra
+    return False
+
+
+PREDICATES = {"group_feeder_order": pred_group_feeder_order}
+
+
 def load_corpus(prop):
     out = []
     for d in (os.path.join(VERIF, "corpus", "common"), os.path.join(VERIF, "corpus", prop)):
@@ -580,16 +647,20 @@ def main():
             violations += 1
 
     # ---- 5. verdicts
-    def is_known(code):
+    def is_known(code, ci=None, oi=None):
         for k in known:
             if code in k.get("codes", []):
+                if k.get("predicate"):
+                    # identified by the situation, not by the code: every other violation with this code is reported
+                    if ci is None or twins is None or not PREDICATES[k["predicate"]](cases[ci], traces[ci], twins[ci], oi, code):
+                        continue
                 return k
         return None
 
     vio_by_case = collections.defaultdict(list)
     model_viol = getattr(evaluate, "last_model_viol", set())
     for (ci, oi, code) in V:
-        k = is_known(code)
+        k = is_known(code, ci, oi)
         # a known finding is the documented behaviour: the model reproduces it at the same operation
         if k and ((ci, oi, code) in model_viol or k.get("model_reproduces") is False):
             known_hits[k["id"]] += 1
@@ -605,6 +676,7 @@ def main():
         c = cases[ci]
 
         def pred(cand, code=code):
+            cand = {k_: v_ for k_, v_ in cand.items() if k_ != "fixed_twin"}
             cs, ts = common.run_impl([cand])
             tw = props.twins_for(spec, cs, ts, seed)
             _, v = evaluate(spec, cs, ts, tw)
